@@ -1,4 +1,5 @@
 import Glom.Lemmas.C17
+import Glom.Lemmas.C17Source
 import Glom.Model.C17Env
 /-
   C17 — Iter pipelines equal the itertools composition, stay lazy, never mutate specs.
@@ -29,7 +30,8 @@ open Glom.C17
     /repo): no method of `Iter` / `Invoke` other than `__init__` writes `self`; `_add_op`
     passes a *new* list `[entry] + self._iter_stack` and forwards the sentinel;
     `Invoke.constants/specs/star` build a fresh instance with `dict(self._cur_kwargs)`;
-    `_iterate` continues on SKIP and returns on the sentinel / STOP before yielding;
+    `_iterate` continues on SKIP and returns on the sentinel / STOP before yielding, and
+    uses the iterator of the target as the iterable of its `for` loop and for nothing else;
     `glomit` folds the callbacks in `reversed(self._iter_stack)` order; every builder
     method's callback calls the iterator function the model gives it. -/
 theorem c17_facts_wf : genFacts.WF = true := by decide
@@ -293,6 +295,75 @@ theorem c17_first_terminates (kinds : List Kind) (hw : ∀ k ∈ kinds, k.wf = t
   obtain ⟨F, hF⟩ := runFirst_terminates src N kinds key hw hpa href
   exact ⟨F, fun fuel hf => runFirst_spec src fuel kinds key (hF fuel hf)⟩
 
+/-! ### the source after a run -/
+
+/-- **Source remainder (`c17_source_remainder`).**  For every stage composition, every source
+    (finite, raising, infinite), every `k`, fuel, and every position `p` the source object was
+    at when the pipeline was started on it: the effect of the run on the source is exactly
+    the pulled prefix.  (1) Seen from where it started, the run *is* the run over the suffix
+    `src.drop p` — same items, same end, same number of pulls; (2) the position never moves
+    backwards; (3) what `next()` finds on the source afterwards is what it finds on the
+    fresh suffix `src.drop pulls`: nothing lost, nothing pushed back, not closed; (4) every
+    later consumer of the same object — any stage list, any `k'` — behaves as on that suffix. -/
+theorem c17_source_remainder (kinds : List Kind) (src : Src) (fuel k p r : Nat) :
+    let out := runTakeFrom kinds src fuel k p
+    out = (runTake kinds (src.drop p) fuel k).shift p ∧
+    p ≤ out.pulls ∧
+    src.after out.pulls r = (src.drop out.pulls).after 0 r ∧ (src.after out.pulls r).closed = false ∧
+    ∀ (kinds' : List Kind) (fuel' k' : Nat),
+      runTakeFrom kinds' src fuel' k' out.pulls = (runTake kinds' (src.drop out.pulls) fuel' k').shift out.pulls := by
+  refine ⟨runTakeFrom_drop kinds src fuel k p, ?_, after_drop src _ r, ?_, fun kinds' fuel' k' => runTakeFrom_drop kinds' src fuel' k' _⟩
+  · rw [runTakeFrom_drop]; exact Nat.le_add_right _ _
+  · cases src with
+    | fin xs tail => cases tail <;> rfl
+    | inf f => rfl
+
+/-- on a finite source, in plain list terms: after the run `next()` yields `xs.drop pulls` -/
+theorem c17_source_remainder_fin (kinds : List Kind) (xs : List V) (tail : Option Err) (fuel k r : Nat) :
+    ((Src.fin xs tail).after (runTake kinds (.fin xs tail) fuel k).pulls r).rest =
+      (xs.drop (runTake kinds (.fin xs tail) fuel k).pulls).take r := by
+  cases tail <;> rfl
+
+/-- the same for `all()` and `first()` started on a used source -/
+theorem c17_source_remainder_all (kinds : List Kind) (src : Src) (fuel p : Nat) :
+    runAllFrom kinds src fuel p = (runAll kinds (src.drop p) fuel).shift p :=
+  runAllFrom_drop kinds src fuel p
+
+theorem c17_source_remainder_first (kinds : List Kind) (src : Src) (fuel : Nat) (key : Fn) (p : Nat) :
+    firstObsOf (runFirstFrom kinds src fuel key p).1 = firstObsOf (runFirst kinds (src.drop p) fuel key).1 ∧
+    (runFirstFrom kinds src fuel key p).2 = p + (runFirst kinds (src.drop p) fuel key).2 :=
+  runFirstFrom_drop kinds src fuel key p
+
+/-- **Two pipelines over one stream.**  After *any* first pipeline took `k` items from a
+    finite stream (having pulled `pulls₁` items, which `c17_lazy_bound` bounds), a second
+    pipeline's `all()` over the same stream object returns exactly the composition of its
+    list functions over the items after the pulled prefix — `[[1,2],[3,4],[5]]` when
+    sentinel-separated groups are read one `glom` call at a time. -/
+theorem c17_second_pipeline (kinds₁ kinds₂ : List Kind) (hw : ∀ k ∈ kinds₂, k.wf = true) (xs ys : List V)
+    (fuel₁ k : Nat)
+    (h : composeE kinds₂ (xs.drop (runTake kinds₁ (.fin xs none) fuel₁ k).pulls) = .ok ys) :
+    ∃ F, ∀ fuel, F ≤ fuel →
+      (runAllFrom kinds₂ (.fin xs none) fuel (runTake kinds₁ (.fin xs none) fuel₁ k).pulls).items = ys ∧
+      (runAllFrom kinds₂ (.fin xs none) fuel (runTake kinds₁ (.fin xs none) fuel₁ k).pulls).fin = .exhausted := by
+  obtain ⟨F, hF⟩ := c17_semantics kinds₂ hw _ ys h
+  refine ⟨F, fun fuel hf => ?_⟩
+  rw [runAllFrom_drop]
+  exact hF fuel hf
+
+/-- **A suspended iterator that is resumed** after somebody else took the items `[p, q)`
+    from the source goes on exactly as if those items had never been in the source: the
+    pipeline sees the sequence of items *it* pulls, whoever else reads the same object. -/
+theorem c17_resume (src : Src) (p q : Nat) (hpq : p ≤ q)
+    (hlen : match src with | .fin xs _ => p ≤ xs.length | .inf _ => True)
+    (fuel k : Nat) (sts : List StageSt) (acc : List V) :
+    (takeK (src.without p q) fuel k sts p acc).1.items = (takeK src fuel k sts q acc).1.items ∧
+    (takeK (src.without p q) fuel k sts p acc).1.fin = (takeK src fuel k sts q acc).1.fin ∧
+    (takeK (src.without p q) fuel k sts p acc).2 = (takeK src fuel k sts q acc).2 ∧
+    (takeK (src.without p q) fuel k sts p acc).1.pulls + q = (takeK src fuel k sts q acc).1.pulls + p := by
+  obtain ⟨h1, h2, h3, j, h4, h5⟩ := takeK_agree (srcAgree_without src p q hpq hlen) fuel k sts 0 acc
+  simp only [Nat.add_zero] at h1 h2 h3 h4 h5
+  exact ⟨h1, h2, h3, by omega⟩
+
 /-! ### builders -/
 
 /-- **Builder purity (`c17_builder_pure`).**  On a heap of spec objects, `_add_op` (every
@@ -343,6 +414,37 @@ theorem c17_model_checks_first (kinds : List Kind) (xs : List V) (tail : Option 
     let out := runFirst kinds (.fin xs tail) fuel key
     checkFirst kinds (.fin xs tail) key (firstObsOf out.1) out.2 = true :=
   checkFirst_of_spec kinds xs tail key _ _ (runFirst_spec _ fuel kinds key h)
+
+/-- the source observation of the model passes the source check -/
+theorem c17_model_checks_source (src : Src) (pulls r : Nat) :
+    checkSource src pulls r (src.after pulls r) = true := by
+  have hc : (src.after pulls r).closed = false := by
+    cases src with
+    | fin xs tail => cases tail <;> rfl
+    | inf f => rfl
+  simp [checkSource, hc]
+
+/-- a pipeline started on a used source (a second `glom` call, another value of the same dict
+    spec) passes the `take k` check against the composition over the *remaining* items -/
+theorem c17_model_checks_take_from (kinds : List Kind) (xs : List V) (tail : Option Err) (fuel k p : Nat)
+    (h : (runTakeFrom kinds (.fin xs tail) fuel k p).fin ≠ .oof) :
+    let out := runTakeFrom kinds (.fin xs tail) fuel k p
+    checkTake kinds (.fin (xs.drop p) tail) k ⟨out.items, out.fin, out.pulls - p⟩ = true := by
+  have hd := runTakeFrom_drop kinds (.fin xs tail) fuel k p
+  simp only
+  rw [hd] at h ⊢
+  simp only [RunOut.shift, Nat.add_sub_cancel_left] at h ⊢
+  exact c17_model_checks_take kinds (xs.drop p) tail fuel k h
+
+theorem c17_model_checks_all_from (kinds : List Kind) (xs : List V) (tail : Option Err) (fuel p : Nat)
+    (h : (runAllFrom kinds (.fin xs tail) fuel p).fin ≠ .oof) :
+    let out := runAllFrom kinds (.fin xs tail) fuel p
+    checkAll kinds (.fin (xs.drop p) tail) ⟨out.items, out.fin, out.pulls - p⟩ = true := by
+  have hd := runAllFrom_drop kinds (.fin xs tail) fuel p
+  simp only
+  rw [hd] at h ⊢
+  simp only [RunOut.shift, Nat.add_sub_cancel_left] at h ⊢
+  exact c17_model_checks_all kinds (xs.drop p) tail fuel h
 
 /-- builder purity in the checker's form: a model run of the prefix spec before and after
     deriving from it, and of the derived spec against the freshly built one, is the same run -/
